@@ -97,11 +97,8 @@ theorem timeInterval_series (im im' : Img) (sl : PySlice) (h : im.timeInterval s
 
 /-- entry (t, v, c) of `im`'s pixel array is the root's entry (root time index of slab t, v + off, c) -/
 def DataInv (root im : ImgA) (off : List Nat) : Prop :=
-  ∀ (t : Nat) (sl : Slab), im.md.slabs[t]? = some sl → ∀ v : List Nat, v.length = root.md.cs.dim.toNat → ∀ c : Nat,
+  ∀ (t : Nat) (sl : Slab), im.md.slabs[t]? = some sl → ∀ v : List Nat, v.length = root.md.cs.dim.toNat → ∀ c : List Nat,
     im.data t v c = root.data sl.t (List.zipWith (· + ·) v off) c
-
-theorem ctail_len (a : ImgA) (c : Nat) : (if a.md.scalar then ([] : List Nat) else [c]).length = a.q := by
-  unfold ImgA.q; cases a.md.scalar <;> rfl
 
 theorem data_sub (root im im' : ImgA) (off : List Nat) (hP : Placed root.md im.md off) (hD : DataInv root im off)
     (sls : List PySlice) (h : im.subSlices sls = .ok im') :
@@ -127,10 +124,10 @@ theorem data_sub (root im im' : ImgA) (off : List Nat) (hP : Placed root.md im.m
       rw [zipWith_add_assocN] at this
       rw [← this]
       unfold ImgA.data ImgA.rawIdx NArr.sliceLead
-      simp only [hser, hsc, List.append_assoc]
+      simp only [hser, List.append_assoc]
       rw [addLead_append _ _ _ hlen]
 
-theorem data_timeSlice (root im im' : ImgA) (off : List Nat) (hD : DataInv root im off) (k : Int)
+theorem data_timeSlice (root im im' : ImgA) (off : List Nat) (hdim : im.md.cs.dim = root.md.cs.dim) (hD : DataInv root im off) (k : Int)
     (h : im.step (.tslice k) = .ok im') : DataInv root im' off := by
   unfold ImgA.step at h
   simp only [bind, Except.bind, pure, Except.pure] at h
@@ -150,13 +147,12 @@ theorem data_timeSlice (root im im' : ImgA) (off : List Nat) (hD : DataInv root 
       have e : sl = sl' := hsl'
       subst e
       rw [← hD i sl hsl v hv c]
-      unfold ImgA.data ImgA.rawIdx NArr.indexFromEnd
-      simp only [hser, hser', hsc, List.append_nil, if_true, Bool.false_eq_true, if_false]
-      have hq := ctail_len im c
-      rw [List.length_append, hq, Nat.add_sub_cancel, insertAt_append]
+      unfold ImgA.data ImgA.rawIdx NArr.indexAt
+      simp only [hser, hser', List.append_nil, if_true, Bool.false_eq_true, if_false]
+      rw [hdim, ← hv, insertAt_append]
       simp
 
-theorem data_timeInterval (root im im' : ImgA) (off : List Nat) (hD : DataInv root im off) (s : PySlice)
+theorem data_timeInterval (root im im' : ImgA) (off : List Nat) (hdim : im.md.cs.dim = root.md.cs.dim) (hD : DataInv root im off) (s : PySlice)
     (h : im.step (.tinterval s) = .ok im') : DataInv root im' off := by
   unfold ImgA.step at h
   simp only [bind, Except.bind, pure, Except.pure] at h
@@ -171,12 +167,9 @@ theorem data_timeInterval (root im im' : ImgA) (off : List Nat) (hD : DataInv ro
     rw [hslabs, getElem?_sliceL] at hsl
     split at hsl
     · rw [← hD _ sl hsl v hv c]
-      unfold ImgA.data ImgA.rawIdx NArr.sliceFromEnd
-      simp only [hser, hser', hsc, if_true, List.append_assoc, List.singleton_append]
-      have hq := ctail_len im c
-      have : (v ++ t :: (if im.md.scalar = true then [] else [c])).length - 1 - im.q = v.length := by
-        rw [List.length_append, List.length_cons, hq]; omega
-      rw [this, addAt_append, Nat.add_comm]
+      unfold ImgA.data ImgA.rawIdx NArr.sliceAt
+      simp only [hser, hser', if_true, List.append_assoc, List.singleton_append]
+      rw [hdim, ← hv, addAt_append, Nat.add_comm]
     · exact absurd hsl (by simp)
 
 theorem data_step (root im im' : ImgA) (off : List Nat) (hP : Placed root.md im.md off) (hD : DataInv root im off)
@@ -234,7 +227,7 @@ theorem data_step (root im im' : ImgA) (off : List Nat) (hP : Placed root.md im.
         split at h
         · exact absurd h (by simp)
         · injection h with h; subst h; exact hm
-    exact ⟨off, (placed_timeSlice root.md im.md im'.md off hP k hm).1, data_timeSlice root im im' off hD k h, hm⟩
+    exact ⟨off, (placed_timeSlice root.md im.md im'.md off hP k hm).1, data_timeSlice root im im' off hP.dim hD k h, hm⟩
   | tinterval s =>
     have hm : im.md.timeInterval s = .ok im'.md := by
       unfold ImgA.step at h
@@ -242,7 +235,7 @@ theorem data_step (root im im' : ImgA) (off : List Nat) (hP : Placed root.md im.
       split at h
       · exact absurd h (by simp)
       · next m hm => injection h with h; subst h; exact hm
-    exact ⟨off, placed_timeInterval root.md im.md im'.md off hP s hm, data_timeInterval root im im' off hD s h, hm⟩
+    exact ⟨off, placed_timeInterval root.md im.md im'.md off hP s hm, data_timeInterval root im im' off hP.dim hD s h, hm⟩
 
 theorem data_run (root : ImgA) (steps : List Step) : ∀ (im im' : ImgA) (off : List Nat),
     Placed root.md im.md off → DataInv root im off → im.runOk steps = some im' →
@@ -267,11 +260,11 @@ theorem data_run (root : ImgA) (steps : List Step) : ∀ (im im' : ImgA) (off : 
 
 /-! ### roots -/
 
-theorem mkRootA_md (rid : Nat) (cs : CS) (series scalar : Bool) (T C : Nat) (time : Option (List (Option Rat)))
+theorem mkRootA_md (rid : Nat) (cs : CS) (series scalar : Bool) (T : Nat) (C : List Nat) (time : Option (List (Option Rat)))
     (date : List (Option Int)) (root : ImgA) (h : mkRootA rid cs series scalar T C time date = .ok root) :
     mkRoot rid cs series scalar T time date = .ok root.md ∧
     root.arr.get = fun idx => ⟨rid, if series then listGetD idx cs.dim.toNat 0 else 0, idx.take cs.dim.toNat,
-      if scalar then 0 else listGetD idx (if series then cs.dim.toNat + 1 else cs.dim.toNat) 0⟩ := by
+      idx.drop (if series then cs.dim.toNat + 1 else cs.dim.toNat)⟩ := by
   unfold mkRootA at h
   simp only [bind, Except.bind, pure, Except.pure] at h
   split at h
@@ -279,16 +272,16 @@ theorem mkRootA_md (rid : Nat) (cs : CS) (series scalar : Bool) (T C : Nat) (tim
   · next m hm => injection h with h; subst h; exact ⟨hm, rfl⟩
 
 /-- the tag of entry (t, v, c) of a freshly constructed image names exactly that entry -/
-theorem root_data_tag (rid : Nat) (cs : CS) (series scalar : Bool) (T C : Nat) (time : Option (List (Option Rat)))
+theorem root_data_tag (rid : Nat) (cs : CS) (series scalar : Bool) (T : Nat) (C : List Nat) (time : Option (List (Option Rat)))
     (date : List (Option Int)) (root : ImgA) (h : mkRootA rid cs series scalar T C time date = .ok root)
-    (t : Nat) (v : List Nat) (c : Nat) (hv : v.length = cs.dim.toNat) :
-    root.data t v c = ⟨rid, if series then t else 0, v, if scalar then 0 else c⟩ := by
+    (t : Nat) (v : List Nat) (c : List Nat) (hv : v.length = cs.dim.toNat) :
+    root.data t v c = ⟨rid, if series then t else 0, v, c⟩ := by
   obtain ⟨hm, hg⟩ := mkRootA_md rid cs series scalar T C time date root h
   have hf := mkRoot_fields rid cs series scalar T time date root.md hm
   unfold ImgA.data ImgA.rawIdx
   rw [hg, hf]
   simp only
-  cases series <;> cases scalar <;> simp [listGetD, ← hv]
+  cases series <;> simp [listGetD, ← hv]
 
 theorem dataInv_root (root : ImgA) (n : Nat) (hn : n = root.md.cs.dim.toNat)
     (hs : ∀ (t : Nat) (sl : Slab), root.md.slabs[t]? = some sl → sl.t = t) :
@@ -336,8 +329,8 @@ theorem append_ok_fields (im other s : Img) (off : Option Rat) (h : im.append ot
       obtain ⟨a, b⟩ := appendChecks_ok im other hc
       exact ⟨rfl, rfl, b, a, rfl, rfl, rfl⟩
 
-theorem slices_get (a : ImgA) (t : Nat) (ht : t < a.slices.length) (v : List Nat) (c : Nat) :
-    ∃ x, a.slices[t]? = some x ∧ x.get (v ++ (if a.md.scalar then [] else [c])) = a.data t v c := by
+theorem slices_get (a : ImgA) (t : Nat) (ht : t < a.slices.length) (v : List Nat) (hv : v.length = a.md.cs.dim.toNat) (c : List Nat) :
+    ∃ x, a.slices[t]? = some x ∧ x.get (v ++ c) = a.data t v c := by
   unfold ImgA.slices at ht ⊢
   cases hs : a.md.series with
   | false =>
@@ -348,14 +341,13 @@ theorem slices_get (a : ImgA) (t : Nat) (ht : t < a.slices.length) (v : List Nat
     unfold ImgA.data ImgA.rawIdx; simp [hs]
   | true =>
     simp only [hs, if_true, List.length_map, List.length_range] at ht ⊢
-    refine ⟨a.arr.indexFromEnd a.q t, by simp [List.getElem?_map, ht], ?_⟩
-    unfold ImgA.data ImgA.rawIdx NArr.indexFromEnd
+    refine ⟨a.arr.indexAt a.md.cs.dim.toNat t, by simp [ht], ?_⟩
+    unfold ImgA.data ImgA.rawIdx NArr.indexAt
     simp only [hs, if_true]
-    have hq := ctail_len a c
-    rw [List.length_append, hq, Nat.add_sub_cancel, insertAt_append]
+    rw [← hv, insertAt_append]
     simp
 
-theorem append_data (a b s : ImgA) (off : Option Rat) (h : a.append b off = .ok s) (t : Nat) (v : List Nat) (c : Nat)
+theorem append_data (a b s : ImgA) (off : Option Rat) (h : a.append b off = .ok s) (t : Nat) (v : List Nat) (c : List Nat)
     (hv : v.length = a.md.cs.dim.toNat) (ht : t < a.slices.length + b.slices.length) :
     s.data t v c = if t < a.slices.length then a.data t v c else b.data (t - a.slices.length) v c := by
   unfold ImgA.append at h
@@ -364,25 +356,24 @@ theorem append_data (a b s : ImgA) (off : Option Rat) (h : a.append b off = .ok 
   · exact absurd h (by simp)
   · next m hm =>
     injection h with h; subst h
-    obtain ⟨hser, hsc, hab, _, _, _, _⟩ := append_ok_fields a.md b.md m off hm
+    obtain ⟨hser, _, _, hdab, _, _, _⟩ := append_ok_fields a.md b.md m off hm
     unfold ImgA.data ImgA.rawIdx stackAt
-    simp only [hser, hsc, if_true]
-    have e1 : listGetD (v ++ [t] ++ (if a.md.scalar = true then [] else [c])) a.md.cs.dim.toNat 0 = t := by
+    simp only [hser, if_true]
+    have e1 : listGetD (v ++ [t] ++ c) a.md.cs.dim.toNat 0 = t := by
       unfold listGetD; rw [← hv]; simp
-    have e2 : (v ++ [t] ++ (if a.md.scalar = true then [] else [c])).eraseIdx a.md.cs.dim.toNat =
-        v ++ (if a.md.scalar = true then [] else [c]) := by
+    have e2 : (v ++ [t] ++ c).eraseIdx a.md.cs.dim.toNat = v ++ c := by
       rw [← hv, List.append_assoc, List.eraseIdx_append_of_length_le (Nat.le_refl _)]; simp
     rw [e1, e2]
     by_cases hlt : t < a.slices.length
-    · obtain ⟨x, hx, hg⟩ := slices_get a t hlt v c
+    · obtain ⟨x, hx, hg⟩ := slices_get a t hlt v hv c
       rw [List.getElem?_append_left hlt, hx]
       simp only [hlt, if_true]
       exact hg
     · have hge : a.slices.length ≤ t := Nat.le_of_not_lt hlt
-      obtain ⟨x, hx, hg⟩ := slices_get b (t - a.slices.length) (by omega) v c
+      obtain ⟨x, hx, hg⟩ := slices_get b (t - a.slices.length) (by omega) v (by rw [← hdab]; exact hv) c
       rw [List.getElem?_append_right hge, hx]
       simp only [hlt, if_false]
-      rw [hab]; exact hg
+      exact hg
 
 theorem slices_length (a : ImgA) (h : a.md.series = false → a.md.slabs.length = 1) :
     a.slices.length = a.md.slabs.length := by
@@ -391,7 +382,7 @@ theorem slices_length (a : ImgA) (h : a.md.series = false → a.md.slabs.length 
   | false => simp [h hs]
   | true => simp
 
-theorem stack_fold_data (d : Nat) (v : List Nat) (c : Nat) (rest : List ImgA) :
+theorem stack_fold_data (d : Nat) (v : List Nat) (c : List Nat) (rest : List ImgA) :
     ∀ (acc : ImgA) (pre : List ImgA), acc.md.slabs.length = pre.length → (acc.md.series = false → pre.length = 1) →
       acc.md.cs.dim.toNat = d → v.length = d →
       (∀ t o, pre[t]? = some o → acc.data t v c = o.data 0 v c) →
@@ -444,7 +435,7 @@ theorem stack_fold_data (d : Nat) (v : List Nat) (c : Nat) (rest : List ImgA) :
 /-- `stack` of single-time images: slab `t` of the stacked array is the array of image `t` -/
 theorem stackA_data (imgs : List ImgA) (s : ImgA) (h : stackA imgs = .ok s) (d : Nat)
     (hs : ∀ o ∈ imgs, o.md.series = false ∧ o.md.slabs.length = 1 ∧ o.md.cs.dim.toNat = d)
-    (v : List Nat) (hv : v.length = d) (c : Nat) (t : Nat) (o : ImgA) (ho : imgs[t]? = some o) :
+    (v : List Nat) (hv : v.length = d) (c : List Nat) (t : Nat) (o : ImgA) (ho : imgs[t]? = some o) :
     s.data t v c = o.data 0 v c := by
   cases imgs with
   | nil => simp at ho
@@ -460,7 +451,7 @@ theorem stackA_data (imgs : List ImgA) (s : ImgA) (h : stackA imgs = .ok s) (d :
 
 /-- `time_slice(k)` on arrays: the result (read at any time index) is slab `i` of the series -/
 theorem tslice_data (im im' : ImgA) (k : Int) (h : im.step (.tslice k) = .ok im') :
-    ∃ i, pyIndex im.md.slabs.length k = .ok i ∧ ∀ t v c, im'.data t v c = im.data i v c := by
+    ∃ i, pyIndex im.md.slabs.length k = .ok i ∧ ∀ t v c, v.length = im.md.cs.dim.toNat → im'.data t v c = im.data i v c := by
   unfold ImgA.step at h
   simp only [bind, Except.bind, pure, Except.pure] at h
   split at h
@@ -470,11 +461,10 @@ theorem tslice_data (im im' : ImgA) (k : Int) (h : im.step (.tslice k) = .ok im'
     rw [hi] at h
     injection h with h; subst h
     refine ⟨i, hi, ?_⟩
-    intro t v c
-    unfold ImgA.data ImgA.rawIdx NArr.indexFromEnd
-    simp only [hser, hser', hsc, List.append_nil, if_true, Bool.false_eq_true, if_false]
-    have hq := ctail_len im c
-    rw [List.length_append, hq, Nat.add_sub_cancel, insertAt_append]
+    intro t v c hv
+    unfold ImgA.data ImgA.rawIdx NArr.indexAt
+    simp only [hser, hser', List.append_nil, if_true, Bool.false_eq_true, if_false]
+    rw [← hv, insertAt_append]
     simp
 
 theorem pyIndex_natCast (T i j : Nat) (h : pyIndex T (i : Int) = .ok j) : j = i := by
@@ -487,7 +477,7 @@ theorem pyIndex_natCast (T i j : Nat) (h : pyIndex T (i : Int) = .ok j) : j = i 
 
 /-- one subregion on arrays, without any invariant: entry (t, v, c) of the result is entry (t, v + start, c) -/
 theorem subSlices_data (im im' : ImgA) (sls : List PySlice) (h : im.subSlices sls = .ok im')
-    (hs : im.md.cs.shape.length = im.md.cs.dim.toNat) (t : Nat) (v : List Nat) (hv : v.length = im.md.cs.dim.toNat) (c : Nat) :
+    (hs : im.md.cs.shape.length = im.md.cs.dim.toNat) (t : Nat) (v : List Nat) (hv : v.length = im.md.cs.dim.toNat) (c : List Nat) :
     im'.data t v c = im.data t (List.zipWith (· + ·) v ((List.zipWith sliceIdx im.md.cs.shape sls).map (·.1))) c := by
   unfold ImgA.subSlices at h
   simp only [bind, Except.bind, pure, Except.pure] at h
@@ -499,7 +489,7 @@ theorem subSlices_data (im im' : ImgA) (sls : List PySlice) (h : im.subSlices sl
     have hlen : ((List.zipWith sliceIdx im.md.cs.shape sls).map (·.1)).length = v.length := by
       rw [List.length_map, List.length_zipWith, hs, hl, hv]; simp
     unfold ImgA.data ImgA.rawIdx NArr.sliceLead
-    simp only [hser, hsc, List.append_assoc]
+    simp only [hser, List.append_assoc]
     rw [addLead_append _ _ _ hlen]
 
 theorem sliceIdx_nat (N a b : Nat) : sliceIdx N (some (a : Int), some (b : Int)) = (min a N, min b N) := by
@@ -508,5 +498,28 @@ theorem sliceIdx_nat (N a b : Nat) : sliceIdx N (some (a : Int), some (b : Int))
   have h1 : ¬ ((a : Int) < 0) := by omega
   have h2 : ¬ ((b : Int) < 0) := by omega
   simp only [h1, h2, if_false, Int.toNat_natCast]
+
+theorem foldA_cs (rest : List ImgA) : ∀ (acc s : ImgA), rest.foldlM (fun a o => a.append o none) acc = .ok s →
+    s.md.cs = acc.md.cs := by
+  induction rest with
+  | nil => intro acc s h; simp only [List.foldlM_nil, pure, Except.pure] at h; injection h with h; rw [h]
+  | cons o rest ih =>
+    intro acc s h
+    rw [List.foldlM_cons] at h
+    simp only [bind, Except.bind] at h
+    split at h
+    · exact absurd h (by simp)
+    · next acc' ha =>
+      have hm : acc.md.append o.md none = .ok acc'.md := by
+        unfold ImgA.append at ha
+        simp only [bind, Except.bind, pure, Except.pure] at ha
+        split at ha
+        · exact absurd ha (by simp)
+        · next m hm => injection ha with ha; subst ha; exact hm
+      obtain ⟨_, _, _, _, _, f6, _⟩ := append_ok_fields acc.md o.md acc'.md none hm
+      rw [ih acc' s h, f6]
+
+theorem stackA_cs (a0 : ImgA) (rest : List ImgA) (s : ImgA) (h : stackA (a0 :: rest) = .ok s) : s.md.cs = a0.md.cs := by
+  simp only [stackA] at h; exact foldA_cs rest a0 s h
 
 end Darsia.Im
